@@ -83,6 +83,12 @@ package tally
 //@ extern interface Counter
 //@ extern interface io.Closer
 //@ assume Timer.Start ensures result.recorder != nil
+//@ assume CachedStatsReporter.AllocateCounter ensures result != nil
+//@ assume CachedStatsReporter.AllocateGauge ensures result != nil
+//@ assume CachedStatsReporter.AllocateTimer ensures result != nil
+//@ assume CachedStatsReporter.AllocateHistogram ensures result != nil
+//@ assume CachedHistogram.ValueBucket ensures result != nil
+//@ assume CachedHistogram.DurationBucket ensures result != nil
 
 //@ pred one_more() { len(calls) == old(len(calls)) + 1 && (forall j int :: 0 <= j && j < old(len(calls)) ==> calls[j] == old(calls[j])) }
 //@ pred quiet() { len(calls) == old(len(calls)) }
@@ -428,6 +434,8 @@ package tally
 //@   ensures @cached_value_bounds cachedHistogram != nil && htype == valueHistogramType ==> (forall i int :: 0 <= i && i < len(storage.hbuckets) ==> calls[old(len(calls)) + i] == ev(CachedHistogram.ValueBucket, cachedHistogram, (i == 0 ? -math.MaxFloat64 : vup(storage.hbuckets, i-1)), vup(storage.hbuckets, i)) && same(result.samples[i].cachedBucket, ires(old(len(calls)) + i)))
 //@   ensures @cached_duration_bounds cachedHistogram != nil && htype == durationHistogramType ==> (forall i int :: 0 <= i && i < len(storage.hbuckets) ==> calls[old(len(calls)) + i] == ev(CachedHistogram.DurationBucket, cachedHistogram, (i == 0 ? math.MinInt64 : dup(storage.hbuckets, i-1)), dup(storage.hbuckets, i)) && same(result.samples[i].cachedBucket, ires(old(len(calls)) + i)))
 //@   ensures @storage_untouched forall i int :: 0 <= i && i < len(storage.hbuckets) ==> same(vup(storage.hbuckets, i), old(vup(storage.hbuckets, i))) && dup(storage.hbuckets, i) == old(dup(storage.hbuckets, i))
+//@   ensures @cached_buckets_non_nil cachedHistogram != nil ==> (forall i int :: 0 <= i && i < len(result.samples) ==> result.samples[i].cachedBucket != nil)
+//@   loop 1 invariant @cached_non_nil cachedHistogram != nil ==> (forall i int :: 0 <= i && i <= rangeindex ==> h.samples[i].cachedBucket != nil)
 //@   loop 1 invariant @idx 0 <= rangeindex + 1 && rangeindex + 1 <= len(h.samples)
 //@   loop 1 invariant @h_fresh h != nil && fresh(h) && fresh(h.samples) && len(h.samples) == len(storage.hbuckets) && h.samples.off == 0
 //@   loop 1 invariant @fields h.htype == htype && h.name == name && h.tags == tags && same(h.reporter, reporter) && same(h.specification, storage.buckets) && same(h.buckets, storage.hbuckets)
@@ -607,16 +615,19 @@ package tally
 
 //@ pred sanN(s *scope, n string) { pcall(Sanitizer.Name, s.sanitizer, n) }
 //@ pred fqn(s *scope, n string) { len(s.prefix) == 0 ? n : s.prefix + s.separator + n }
-//@ pred scopeWF(s *scope) { s != nil && s.sanitizer != nil && s.counters != nil && s.gauges != nil && s.timers != nil && s.histograms != nil && s.bucketCache != nil }
+//@ pred regWF0(r *scopeRegistry) { r != nil && r.root != nil && (forall i int :: 0 <= i && i < len(r.subscopes) ==> r.subscopes[i] != nil) }
+//@ pred scopeWF(s *scope) { s != nil && s.sanitizer != nil && s.counters != nil && s.gauges != nil && s.timers != nil && s.histograms != nil && s.bucketCache != nil && s.done != nil && (s.reporter != nil ==> same(s.baseReporter, iface2(s.reporter.tag, s.reporter.pay))) }
 
 //@ lock scope.cm self s protects counters, countersSlice
 //@   property C09, C05
 //@   inv @entries_non_nil s.counters != nil && (forall k string :: k in s.counters ==> s.counters[k] != nil)
+//@   inv @slice_entries_reportable forall i int :: 0 <= i && i < len(s.countersSlice) ==> s.countersSlice[i] != nil && (s.cachedReporter != nil ==> s.countersSlice[i].cachedCount != nil)
 //@   guar @live_entries_never_replaced !s.closed ==> (forall k string :: old(k in s.counters) ==> k in s.counters && s.counters[k] == old(s.counters[k]))
 
 //@ lock scope.gm self s protects gauges, gaugesSlice
 //@   property C09, C05
 //@   inv @entries_non_nil s.gauges != nil && (forall k string :: k in s.gauges ==> s.gauges[k] != nil)
+//@   inv @slice_entries_reportable forall i int :: 0 <= i && i < len(s.gaugesSlice) ==> s.gaugesSlice[i] != nil && (s.cachedReporter != nil ==> s.gaugesSlice[i].cachedGauge != nil)
 //@   guar @live_entries_never_replaced !s.closed ==> (forall k string :: old(k in s.gauges) ==> k in s.gauges && s.gauges[k] == old(s.gauges[k]))
 
 //@ lock scope.tm self s protects timers
@@ -628,6 +639,7 @@ package tally
 //@ lock scope.hm self s protects histograms, histogramsSlice
 //@   property C09, C05
 //@   inv @entries_non_nil s.histograms != nil && (forall k string :: k in s.histograms ==> s.histograms[k] != nil)
+//@   inv @slice_entries_reportable forall i int :: 0 <= i && i < len(s.histogramsSlice) ==> s.histogramsSlice[i] != nil && histWF(s.histogramsSlice[i]) && (s.histogramsSlice[i].htype == valueHistogramType || s.histogramsSlice[i].htype == durationHistogramType) && (s.cachedReporter != nil ==> (forall j int :: 0 <= j && j < len(s.histogramsSlice[i].samples) ==> s.histogramsSlice[i].samples[j].cachedBucket != nil))
 //@   inv @histograms_carry_scope_name_and_tags forall k string :: k in s.histograms ==> s.histograms[k].name == fqn(s, k) && s.histograms[k].tags == s.tags
 //@   inv @histograms_well_formed forall k string :: k in s.histograms ==> histWF(s.histograms[k]) && (s.histograms[k].htype == valueHistogramType ==> valueWF(s.histograms[k])) && (s.histograms[k].htype == durationHistogramType ==> durationWF(s.histograms[k])) && (s.histograms[k].htype == valueHistogramType || s.histograms[k].htype == durationHistogramType)
 //@   guar @live_entries_never_replaced !s.closed ==> (forall k string :: old(k in s.histograms) ==> k in s.histograms && s.histograms[k] == old(s.histograms[k]))
@@ -727,7 +739,8 @@ package tally
 //@ initonly scopeBucket.s, bucketCache.cache, counter.cachedCount, gauge.cachedGauge, timer.name, timer.tags, timer.reporter, timer.cachedTimer
 //@ initonly histogram.htype, histogram.name, histogram.tags, histogram.reporter, histogram.specification, histogram.buckets, histogram.samples
 //@ monotone scope.closed
-//@ mark closedSeen, flushed
+//@ mark closedSeen, flushed, startedClosed
+//@ on call (*scopeRegistry).reportInternalMetrics: startedClosed[r] = closedSeen[r.root]
 //@ on load scope.closed: closedSeen[self] = closedSeen[self] || after
 //@ on call (*scope).report: flushed[s] = closedSeen[s]
 //@ on call (*scope).cachedReport: flushed[s] = closedSeen[s]
@@ -735,7 +748,7 @@ package tally
 //@ lock scopeBucket.mu self b protects s
 //@   property C07, C09, C05
 //@   inv @entries_are_scopes b.s != nil && (forall k string :: k in b.s ==> b.s[k] != nil && scopeWF(b.s[k]))
-//@   guar @only_closed_scopes_are_unregistered forall k string :: old(k in b.s) && !old(b.s[k].closed) ==> k in b.s && b.s[k] == old(b.s[k])
+//@   guar @only_closed_scopes_are_unregistered forall k string :: old(k in b.s) && !old(b.s[k]).closed ==> k in b.s && b.s[k] == old(b.s[k])
 
 //@ func (*scopeRegistry).lockedLookup
 //@   property C05, C09
@@ -766,7 +779,7 @@ package tally
 //@   loop 4 invariant @deleting s.histograms != nil && (forall k string :: seen(k) ==> !(k in s.histograms)) && len(s.counters) == 0 && len(s.gauges) == 0 && len(s.timers) == 0 && quiet()
 
 //@ pred bucketInv(b *scopeBucket) { b != nil && b.s != nil && (forall k string :: k in b.s ==> b.s[k] != nil && scopeWF(b.s[k])) }
-//@ pred registryWF(r *scopeRegistry) { r != nil && r.root != nil && scopeWF(r.root) && (forall i int :: 0 <= i && i < len(r.subscopes) ==> r.subscopes[i] != nil) }
+//@ pred registryWF(r *scopeRegistry) { regWF0(r) && scopeWF(r.root) && r.root.registry == r }
 
 //@ func (*scopeRegistry).reportInternalMetrics
 //@   property C06
@@ -774,7 +787,7 @@ package tally
 //@   emits
 //@   requires registryWF(r)
 
-//@ pred rootWF(s *scope) { scopeWF(s) && s.registry != nil && registryWF(s.registry) && (s.reporter != nil ==> same(s.baseReporter, iface2(s.reporter.tag, s.reporter.pay))) }
+//@ pred rootWF(s *scope) { scopeWF(s) && s.registry != nil && registryWF(s.registry) && s.registry.root == s }
 
 //@ func (*scope).reportRegistry
 //@   property C08
@@ -789,8 +802,9 @@ package tally
 //@ func (*scope).Close
 //@   property C07, C08
 //@   emits
-//@   requires scopeWF(s) && s.done != nil && (!s.closed ==> !closed(s.done))
-//@   requires s.root ==> rootWF(s)
+//@   requires scopeWF(s)
+//@   requires s.root && !s.closed ==> rootWF(s)
+//@   assume @done_is_closed_only_here_after_the_cas !s.closed ==> !closed(s.done)
 //@   modifies s.closed, chanstate(s.done)
 //@   modifies if !s.closed && s.root : *
 //@   ensures @closed_after s.closed
@@ -813,16 +827,23 @@ package tally
 //@   emits
 //@   requires registryWF(r) && reporter != nil
 //@   modifies *
-//@   loop 1 invariant @idx 0 <= rangeindex + 1 && rangeindex + 1 <= len(r.subscopes) && registryWF(r) && reporter != nil
-//@   loop 2 invariant @bucket bucketInv(subscopeBucket) && registryWF(r) && reporter != nil && 0 <= rangeindex && rangeindex < len(r.subscopes)
+//@   loop 1 invariant @idx 0 <= rangeindex + 1 && rangeindex + 1 <= len(r.subscopes)
+//@   loop 1 invariant @wf registryWF(r) && reporter != nil
+//@   loop 2 invariant @idx 0 <= rangeindex && rangeindex < len(r.subscopes)
+//@   loop 2 invariant @wf registryWF(r) && reporter != nil && subscopeBucket != nil && subscopeBucket.s != nil
+//@   loop 2 invariant @entries forall k string :: k in subscopeBucket.s ==> subscopeBucket.s[k] != nil && scopeWF(subscopeBucket.s[k])
 
 //@ func (*scopeRegistry).CachedReport
 //@   property C07, C08
 //@   emits
-//@   requires registryWF(r)
+//@   requires registryWF(r) && r.root.cachedReporter != nil
 //@   modifies *
-//@   loop 1 invariant @idx 0 <= rangeindex + 1 && rangeindex + 1 <= len(r.subscopes) && registryWF(r)
-//@   loop 2 invariant @bucket bucketInv(subscopeBucket) && registryWF(r) && 0 <= rangeindex && rangeindex < len(r.subscopes)
+//@   loop 1 invariant @idx 0 <= rangeindex + 1 && rangeindex + 1 <= len(r.subscopes)
+//@   loop 1 invariant @wf registryWF(r) && r.root.cachedReporter != nil
+//@   loop 2 invariant @idx 0 <= rangeindex && rangeindex < len(r.subscopes)
+//@   loop 2 invariant @wf registryWF(r) && r.root.cachedReporter != nil && subscopeBucket != nil && subscopeBucket.s != nil
+//@   loop 2 invariant @entries forall k string :: k in subscopeBucket.s ==> subscopeBucket.s[k] != nil && scopeWF(subscopeBucket.s[k])
+//@   loop 2 assume @subscopes_share_the_roots_cached_reporter forall k string :: k in subscopeBucket.s ==> same(subscopeBucket.s[k].cachedReporter, r.root.cachedReporter)
 
 // (scope.report / cachedReport: see the C01/C04 section for the delivery clauses)
 //@ func (*scope).report
@@ -838,9 +859,20 @@ package tally
 //@ func (*scope).cachedReport
 //@   property C01, C04, C10
 //@   emits
-//@   requires scopeWF(s)
+//@   requires scopeWF(s) && s.cachedReporter != nil
 //@   acquires s.cm, s.gm, s.hm
 //@   modifies all counter.prev, all gauge.updated
-//@   loop 1 invariant @wf scopeWF(s) && 0 <= rangeindex + 1
-//@   loop 2 invariant @wf scopeWF(s) && 0 <= rangeindex + 1
-//@   loop 3 invariant @wf scopeWF(s) && 0 <= rangeindex + 1
+//@   loop 1 invariant @idx 0 <= rangeindex + 1 && rangeindex + 1 <= len(s.countersSlice) && scopeWF(s) && s.cachedReporter != nil
+//@   loop 1 invariant @entries forall i int :: 0 <= i && i < len(s.countersSlice) ==> s.countersSlice[i] != nil && s.countersSlice[i].cachedCount != nil
+//@   loop 2 invariant @idx 0 <= rangeindex#2 + 1 && rangeindex#2 + 1 <= len(s.gaugesSlice) && scopeWF(s) && s.cachedReporter != nil
+//@   loop 2 invariant @entries forall i int :: 0 <= i && i < len(s.gaugesSlice) ==> s.gaugesSlice[i] != nil && s.gaugesSlice[i].cachedGauge != nil
+//@   loop 3 invariant @idx 0 <= rangeindex#3 + 1 && rangeindex#3 + 1 <= len(s.histogramsSlice) && scopeWF(s) && s.cachedReporter != nil
+//@   loop 3 invariant @entries forall i int :: 0 <= i && i < len(s.histogramsSlice) ==> s.histogramsSlice[i] != nil && histWF(s.histogramsSlice[i]) && (s.histogramsSlice[i].htype == valueHistogramType || s.histogramsSlice[i].htype == durationHistogramType) && (forall j int :: 0 <= j && j < len(s.histogramsSlice[i].samples) ==> s.histogramsSlice[i].samples[j].cachedBucket != nil)
+
+//@ func (*scopeRegistry).purgeIfRootClosed
+//@   property C08, C07
+//@   trusted
+//@   emits
+//@   requires registryWF(r)
+//@   requires @only_a_pass_that_started_after_close_may_purge r.root.closed ==> startedClosed[r]
+//@   modifies if r.root.closed : *
